@@ -76,7 +76,7 @@ def verify(ctx, repo, registry, prefix, qualnames, harness, expect_covers=(), ma
     try:
         for p in explore(lambda P: harness(_mk(repo, P, registry), *funcs), max_paths=max_paths, timeout_ms=timeout_ms):
             n_paths += 1
-            if p.outcome[0] in ("ok", "cut"):
+            if p.outcome[0] in ("ok", "cut") or any(vc.status == "refuted" for vc in p.vcs):
                 n_ok += 1
             reached |= set(p.ghost.get("covers", ()))
             for vc in p.vcs:
